@@ -93,6 +93,16 @@ const (
 	aExtra     = numActions + 2 // first of the extra runtime faults (extraFaults)
 )
 
+// templates: the output writer fails on the write of a shown value / of a text
+var aWriteFailShow, aWriteFailText int
+
+func init() {
+	aWriteFailShow = aExtra + len(extraFaults)
+	aWriteFailText = aWriteFailShow + 1
+}
+
+func isWriteFail(a int) bool { return a == aWriteFailShow || a == aWriteFailText }
+
 // extraFault is a runtime fault with variable (non-constant) operands. H. is
 // the prefix of host names. msg is a phrase of gc's message that the message
 // of the PanicError must contain.
@@ -171,6 +181,10 @@ func faultCategory(a int) string {
 
 func actionName(a int) string {
 	switch {
+	case a == aWriteFailShow:
+		return "out.Write fails on a shown value"
+	case a == aWriteFailText:
+		return "out.Write fails on a text"
 	case a < numActions:
 		return actionNames[a]
 	case a == aShowStop:
@@ -186,6 +200,8 @@ var actionNames = []string{"panic(string)", "panic(int)", "panic(host error)", "
 
 func actionClass(a int) string {
 	switch {
+	case isWriteFail(a):
+		return "write"
 	case a >= aExtra:
 		return "fault"
 	case a == aShowStop:
@@ -233,7 +249,7 @@ func (s shape) applicable() bool {
 	if s.site == sDeferredDirect && actionClass(s.action) == "fault" {
 		return false // a fault has no deferrable call form
 	}
-	if (s.action == aShowStop || s.action == aShowFatal) && (s.layout == lProgram || s.site != sBody) {
+	if (s.action == aShowStop || s.action == aShowFatal || isWriteFail(s.action)) && (s.layout == lProgram || s.site != sBody) {
 		return false // the show statement exists in template bodies and macro bodies only
 	}
 	if s.layout != lProgram && s.site == sCallee {
@@ -373,6 +389,12 @@ func (g *gen) actionLines() (pre []string, stmt string) {
 		return nil, "show StopStr"
 	case aShowFatal:
 		return nil, "show FatalStr"
+	}
+	if g.p.sh.action == aWriteFailShow {
+		return nil, "show \"WRITE-FAILS\""
+	}
+	if g.p.sh.action == aWriteFailText {
+		return nil, "%%}WRITE-FAILS{%%"
 	}
 	if a := g.p.sh.action; a >= aExtra {
 		f := extraFaults[a-aExtra]
@@ -520,6 +542,7 @@ func makePlan(sh shape) *plan {
 // ---- model of Go's defer / panic / recover ----
 
 type rec struct {
+	write     bool   // the panic of a failed out.Write
 	val       string // identifies the value: "A" for the action, "N<tag>" for new panics
 	action    bool
 	line      int
@@ -533,6 +556,7 @@ const (
 	rPanic
 	rStop
 	rFatal
+	rWrite // Run returns the error of out.Write
 )
 
 type expectation struct {
@@ -567,6 +591,10 @@ func (m *model) doAction(direct bool) *rec {
 		panic(modelStop{rStop})
 	case "fatal":
 		panic(modelStop{rFatal})
+	}
+	if isWriteFail(m.p.sh.action) {
+		// the write error is raised as a panic by the Show/Text instruction
+		return m.push(&rec{val: "W", action: true, write: true, noLine: true})
 	}
 	return m.push(&rec{val: "A", action: true, line: m.p.actionLine, file: m.p.actionFile, noLine: direct})
 }
@@ -666,7 +694,10 @@ func expect(p *plan) (e expectation) {
 		// in the right order because nothing else is printed in between.
 	}
 	e = expectation{kind: rNil, marks: m.marks, nativeDeferredWhilePanicking: m.nativeWhilePanicking}
-	if cur != nil {
+	if cur != nil && cur.write {
+		// Run returns the error of out.Write when the write failure is what ends the run
+		e.kind = rWrite
+	} else if cur != nil {
 		e.kind = rPanic
 		for k := len(m.stack) - 1; k >= 0; k-- {
 			e.chain = append(e.chain, m.stack[k])
@@ -691,6 +722,16 @@ type MyStr struct{}
 func (MyStr) String() string { return "myStr-msg" }
 
 type fatalValue struct{ n int }
+
+// failingWriter fails on the write that carries the text WRITE-FAILS.
+type failingWriter struct{ err error }
+
+func (w failingWriter) Write(p []byte) (int, error) {
+	if strings.Contains(string(p), "WRITE-FAILS") {
+		return 0, w.err
+	}
+	return len(p), nil
+}
 
 // S is a host struct type used by the nil pointer faults.
 type S struct {
@@ -766,6 +807,7 @@ func walk(pe *scriggo.PanicError) (elems []elem, end string) {
 
 func observe(p *plan) (o observation) {
 	stopErr := &hostErrT{"E-stop"}
+	writeErr := &hostErrT{"E-write"}
 	hostErr := &hostErrT{"host-err"}
 	fatalV := &fatalValue{1}
 	var marks []string
@@ -803,6 +845,9 @@ func observe(p *plan) (o observation) {
 			return
 		}
 		run = func() error { return t.Run(&strings.Builder{}, nil, nil) }
+		if isWriteFail(p.sh.action) {
+			run = func() error { return t.Run(failingWriter{writeErr}, nil, nil) }
+		}
 	}
 	func() {
 		defer func() {
@@ -825,6 +870,8 @@ func observe(p *plan) (o observation) {
 		o.kind = rNil
 	case o.err == error(stopErr):
 		o.kind = rStop
+	case o.err == error(writeErr):
+		o.kind = rWrite
 	default:
 		if pe, ok := o.err.(*scriggo.PanicError); ok && pe != nil {
 			o.kind = rPanic
@@ -860,6 +907,8 @@ func kindName(k int) string {
 		return "Stop-error"
 	case rFatal:
 		return "Fatal-value-panic"
+	case rWrite:
+		return "the-writer's-error"
 	case -1:
 		return "other-host-panic"
 	}
@@ -904,6 +953,9 @@ func (e expectation) describe() string {
 // messageOK checks that the message of a chain element identifies the
 // panicking value.
 func messageOK(sh shape, r *rec, e elem) (bool, string) {
+	if r.write {
+		return e.msg != nil, "write-error-element-without-message"
+	}
 	if !r.action {
 		if s, ok := e.msg.(string); !ok || s != r.val {
 			return false, "new-panic-string"
@@ -990,6 +1042,9 @@ func defectContext(p *plan, e expectation) string {
 	}
 	if e.nativeDeferredWhilePanicking {
 		ctx += " native-deferred-call-ran-while-panicking"
+	}
+	if isWriteFail(sh.action) {
+		ctx += " write-failure"
 	}
 	return ctx
 }
@@ -1260,7 +1315,9 @@ func (f family) actionList() []int {
 	return baseActions
 }
 
-var baseActions, faultActions, pendingActions []int
+var baseActions, faultActions, pendingActions, writerActions []int
+
+var writerKinds = []int{dMarker, dRecover, dNewPanic, dRecoverNewPanic, dNativeMark}
 
 func init() {
 	for a := 0; a < numActions; a++ {
@@ -1270,6 +1327,7 @@ func init() {
 		faultActions = append(faultActions, aExtra+i)
 	}
 	pendingActions = append(append([]int{}, baseActions...), aShowStop, aShowFatal)
+	writerActions = []int{aExtra + len(extraFaults), aExtra + len(extraFaults) + 1}
 }
 
 func families(tier string) []family {
@@ -1305,6 +1363,9 @@ func families(tier string) []family {
 		family{"program.faults", lProgram, faultCfgs, faultActions, []int{aspOutcome, aspChain, aspLocation, aspLine}},
 		family{"template.faults", lTemplate, faultCfgs, faultActions, []int{aspOutcome, aspChain, aspLocation, aspLine}},
 		family{"template.import.faults", lTemplateImport, frameConfigsOf(few, 1, 1), faultActions, []int{aspLocation, aspLine}},
+		family{"template.writer1", lTemplate, frameConfigsOf(writerKinds, 3), writerActions, []int{aspOutcome, aspChain, aspLocation, aspLine}},
+		family{"template.writer2", lTemplate, frameConfigsOf(writerKinds, 2, 2), writerActions, []int{aspOutcome, aspChain, aspLocation, aspLine}},
+		family{"template.import.writer2", lTemplateImport, frameConfigsOf(writerKinds, 1, 2), writerActions, []int{aspOutcome, aspChain}},
 		family{"program.pending1", lProgram, pend1, pendingActions, []int{aspOutcome}},
 		family{"program.pending2", lProgram, pend2, pendingActions, []int{aspOutcome}},
 		family{"template.pending1", lTemplate, pend1, pendingActions, []int{aspOutcome}},
